@@ -635,13 +635,14 @@ impl TypeAggregator {
                         .transpose()?;
                     // If there is an owning interface, ensure it is imported
                     if let Some(owner) = owner {
-                        let name = self.types()[owner]
-                            .id
-                            .as_deref()
-                            .expect("interface has no id");
-                        if !self.imports.contains_key(name) {
-                            self.imports
-                                .insert(name.to_owned(), ItemKind::Instance(owner));
+                        let Some(name) = self.types()[owner].id.clone() else {
+                            bail!(
+                                "resource `{name}` is owned by an interface without an identifier",
+                                name = resource.name
+                            );
+                        };
+                        if !self.imports.contains_key(&name) {
+                            self.imports.insert(name, ItemKind::Instance(owner));
                         }
                     }
                     Ok(ResourceAlias {
